@@ -14,7 +14,8 @@
 (*                                                                         *)
 (* Case modes: "wr" encode an instance then decode kio's own output        *)
 (* (C01/C02); "rw" decode bytes produced by the specification for a        *)
-(* variant, then re-encode (C03/C05).                                      *)
+(* variant, then re-encode (C03/C05); "w1" / "r1" a single encode / decode *)
+(* call taken out of a history or thread schedule (C19, C07).              *)
 (* Verdicts are total: exactly one line per case, naming every failed      *)
 (* clause.                                                                 *)
 (***************************************************************************)
@@ -46,7 +47,7 @@ Load ==
   /\ phase = "load"
   /\ IF ci > N THEN /\ phase' = "done"
                     /\ UNCHANGED <<ci, l, exp, wpos, msglen, rpos, fails>>
-     ELSE IF C.mode = "wr" THEN
+     ELSE IF C.mode \in {"wr", "w1"} THEN
           /\ exp' = Enc(S, Value)
           /\ phase' = "w" /\ l' = 1 /\ wpos' = 0 /\ rpos' = 0 /\ msglen' = 0
           /\ fails' = IF WellTyped(S, Value) THEN {} ELSE {"harness_value_not_well_typed"}
